@@ -6,6 +6,7 @@
   channel, a `sum` that is not called on the error path (an `if err == nil` → `.unknown`) … each
   changes a generated list and breaks one of these lemmas.
 -/
+import Glb.Generated.StatusIoutil
 import Glb.Model.Progress
 
 namespace Glb.Tie.Ioutil
@@ -34,5 +35,8 @@ theorem close_sends_then_closes :
 
 theorem write_always_sums :
     Generated.pwWrite.idxOf .callSum = 1 ∧ Generated.pwWriteString.idxOf .callSum = 1 := by decide
+
+/-- the extractor of this area recognised the source as it is on this run (a refusal removes `ok`) -/
+theorem extractor_ok : Glb.Generated.StatusIoutil.ok = () := rfl
 
 end Glb.Tie.Ioutil
